@@ -382,6 +382,9 @@ class _Flat:
             return
         if isinstance(t, ast.Subscript):
             base = t.value
+            if isinstance(base, ast.Name) and base.id in env and env[base.id].endswith("._layers"):
+                self.emit("mut", _owner(env[base.id][:-len("._layers")]), "_layers[]" + ("del" if isinstance(st, ast.Delete) else "="), guards)
+                return
             if isinstance(base, ast.Attribute) and base.attr == "_layers":
                 self.emit("mut", _owner(_norm(_subst(base.value, env))), "_layers[]" + ("del" if isinstance(st, ast.Delete) else "="), guards)
             elif isinstance(base, ast.Attribute) and base.attr in STORED:
@@ -444,6 +447,12 @@ class _Flat:
             return
         # super().m / super(C, self).m
         recv = _norm(_subst(recv_node, env))
+        if name in LISTMUT and recv.endswith("._layers"):            # the list reached through a local alias
+            self.emit("mut", _owner(recv[:-len("._layers")]), "_layers." + name, guards)
+            return
+        if name in LISTMUT and any(recv.endswith("." + a) for a in STORED) and (cls, fn.name) not in EXEMPT_STORE:
+            self.emit("store", _owner(recv.rsplit(".", 1)[0]), recv.rsplit(".", 1)[1] + "." + name, guards)
+            return
         is_super = isinstance(recv_node, ast.Call) and isinstance(recv_node.func, ast.Name) and recv_node.func.id == "super"
         if name == "_compute_clipping_layers":
             owner = recv[4:-1] if recv.startswith("doc(") and recv.endswith(")") else recv
